@@ -138,6 +138,8 @@ type verifSess struct {
 	nfr    int64        // total frames ever received (atomic)
 	done   chan struct{}
 	dead   bool
+	// set by the writer when the server told the session to stop (eviction, account deletion): the connection is closed
+	stopped int32
 }
 
 // writer plays Session.writeLoop for a socket-less websocket-flavoured session.
@@ -173,6 +175,8 @@ func (vs *verifSess) writer() {
 			if msg != nil {
 				vs.record(msg)
 			}
+			// the real write loop returns here, which closes the socket; the read loop then ends and runs cleanUp (reapStopped)
+			atomic.StoreInt32(&vs.stopped, 1)
 			return
 		case topic := <-s.detach:
 			s.delSub(topic)
@@ -570,6 +574,15 @@ func (w *verifWorld) probeAll() bool {
 }
 
 // quiesce: two consecutive stable rounds of (channels empty -> probe every actor -> channels empty, no new frames).
+// reapStopped plays the read loop's end for sessions the server has stopped: the socket is closed, cleanUp runs.
+func (w *verifWorld) reapStopped() {
+	for _, vs := range w.sess {
+		if vs != nil && !vs.dead && atomic.LoadInt32(&vs.stopped) == 1 {
+			w.kill(vs)
+		}
+	}
+}
+
 func (w *verifWorld) quiesce() error {
 	deadline := time.Now().Add(15 * time.Second)
 	stable := 0
@@ -577,6 +590,7 @@ func (w *verifWorld) quiesce() error {
 		if time.Now().After(deadline) {
 			return errors.New("world did not quiesce within 15s")
 		}
+		w.reapStopped()
 		if !w.chansEmpty() {
 			stable = 0
 			time.Sleep(100 * time.Microsecond)
